@@ -106,6 +106,10 @@ type localEnd struct {
 	stops   []func()
 	conns   sync.Map // id -> *grpc.ClientConn kept open for later calls
 	answers int64
+	// dialOpts: when non-nil every dial goes through DialWithOptions(id, dialOpts...) - one slice,
+	// with spare capacity, shared by all (possibly concurrent) dials of this end, as a caller that
+	// keeps its dial options in one place would do
+	dialOpts []grpc.DialOption
 }
 
 func (e *localEnd) side() string { return e.name }
@@ -146,7 +150,13 @@ func (e *localEnd) acceptSlow(id uint32, delay, serveDelay time.Duration) {
 
 func (e *localEnd) dial(id uint32, delay time.Duration) (Tag, error) {
 	time.Sleep(delay)
-	cc, err := e.br.Dial(id)
+	var cc *grpc.ClientConn
+	var err error
+	if e.dialOpts != nil {
+		cc, err = e.br.DialWithOptions(id, e.dialOpts...)
+	} else {
+		cc, err = e.br.Dial(id)
+	}
 	if err != nil {
 		return Tag{}, fmt.Errorf("Dial(%d): %w", id, err)
 	}
